@@ -364,6 +364,36 @@ func e2eExec(w *world, f []string) (res string) {
 		}
 		sn := e.settle(e.exp, p0, 0)
 		return "refreshed=1 " + e2eSnapString(sn)
+	case "e2eorder":
+		// n STATUS_CHANGE frames for n different (unknown) addresses, written back to back: do they reach the
+		// debouncer's buffer in wire order? (each frame is handed over by its own goroutine)
+		n := atoi(f[1])
+		var bodies [][]byte
+		var want []string
+		for i := 0; i < n; i++ {
+			ip := net.IPv4(10, 9, byte(i>>8), byte(i))
+			bodies = append(bodies, memcluster.StatusEventBody("UP", ip, 9042))
+			want = append(want, "UP "+ip.String())
+		}
+		if !e.cp.PushEvents(bodies...) {
+			return "err:no-control-connection"
+		}
+		var got []string
+		for t0 := time.Now(); time.Since(t0) < 900*time.Millisecond; time.Sleep(10 * time.Millisecond) {
+			got = gocql.VerifNodeEventBuffer(e.sess.S)
+			if len(got) >= n {
+				break
+			}
+		}
+		if len(got) != n {
+			return fmt.Sprintf("incomplete:%d", len(got))
+		}
+		for i := range got {
+			if got[i] != want[i] {
+				return "reordered"
+			}
+		}
+		return "inorder"
 	case "e2ebound":
 		_, p1 := e.cp.Counts()
 		if d := p1 - e.peers0; d > 2 {
